@@ -298,7 +298,18 @@ def r17_8(prog, rep):
         f = prog.functions.get(f"{C.INSP}.{name}")
         if f is None:
             return None, []
-        return f, [r for _, r in P.returns(P.paths_of(prog, f))] + [g for p in P.paths_of(prog, f) for g, _ in p.guards()]
+        def named(tm):
+            # (a tuple of classes / special forms that has been given a name at module level is that tuple)
+            def ex(y):
+                if y[0] == "ref" and y[1].startswith(C.INSP + "._"):
+                    items = P.flatten_display(prog, y)
+                    if items is not None and len(items) <= 12:
+                        return ("tuple", tuple(items))
+                return None
+            return T.rewrite(tm, ex)
+
+        plain = [r for _, r in P.returns(P.paths_of(prog, f))] + [g for p in P.paths_of(prog, f) for g, _ in p.guards()]
+        return f, plain + [y for y in (named(x) for x in plain) if y not in plain]
 
     def has_call(terms, *names):
         return any(T.contains(t0, lambda s: T.is_call_to(s, *names)) for t0 in terms)
